@@ -12,14 +12,14 @@ SHARDS = {"quick": 16, "thorough": 16}
 TIMEOUT = {"quick": 1200, "thorough": 7200}
 RULE = (
     "configurations: n_thetas 3-32 (all triples enumerated), 1-8 plates of sizes 1-12 (always a size-1 plate or a single "
-    "plate somewhere in the run), variances log-uniform in [1e-3,1e3], means N(0,1)x{0.1,1,10,100} incl. plates on which all samples agree next to plates on which they disagree strongly, occasional plates of 20-48 experiments and plates of production size (96 / 160 / 384 experiments) whose variances all lie in one regime (1e-3 .. 1e3), symmetric non-negative "
+    "plate somewhere in the run), variances log-uniform in [1e-3,1e3], means N(0,1)x{0.1,1,10,100}, in every fifth configuration around a common level (40 .. 500; 2**10 / 2**20 on a binary grid) far above their spread, incl. plates on which all samples agree next to plates on which they disagree strongly, occasional plates of 20-48 experiments and plates of production size (96 / 160 / 384 experiments) whose variances all lie in one regime (1e-3 .. 1e3), symmetric non-negative "
     "distance matrices with 0-40% zero entries (and all-zero), max_chunk in {1,2,3,50}; each plate's score from the "
     "homoscedastic, heteroscedastic, vectorized and GaussianDBALScorer entry points is compared with a scalar fsum "
     "reference at 1e-9(1+|ref|) and under metamorphic changes (alone vs together, shuffled experiments, shuffled plates, "
     "every max_chunk, relabelled thetas). A case is one (configuration, entry point); distinct = hash of inputs; "
     "non-trivial = >=2 plates of unequal sizes or >=4 thetas"
 )
-ASSUMPTIONS = ["means bounded by a few hundred so squares stay finite", "scalar reference uses math.fsum and a stable log-sum-exp"]
+ASSUMPTIONS = ["means bounded by a few hundred (up to 2**20 when they lie on a binary grid on which every difference is exact) so squares stay finite", "scalar reference uses math.fsum and a stable log-sum-exp"]
 REQUIRED = {"work_array_scale_runs": {"quick": 1, "thorough": 1}, "configs_with_more_than_5000_triples": {"quick": 10, "thorough": 200}, "cli_end_to_end_runs": {"quick": 5, "thorough": 50}, "scorer_runs_on_overlapping_views": {"quick": 10, "thorough": 150}, "production_size_plates": {"quick": 40, "thorough": 800}, "plate_scores_vs_reference": {"quick": 10000, "thorough": 200000}, "metamorphic_checks": {"quick": 10000, "thorough": 200000}, "scorer_entry_runs": {"quick": 800, "thorough": 15000}, "all_zero_distance_cases": {"quick": 10, "thorough": 200}}
 N_CFG = {"quick": 960, "thorough": 16000}
 TOL = 1e-9
@@ -152,6 +152,16 @@ def gen_config(rng):
         # disagree strongly - the log-terms of the two then lie hundreds to thousands of units apart
         p0 = int(rng.integers(P))
         means[p0] = np.tile(rng.normal(size=(1, sizes[p0])), (T, 1)) + rng.normal(size=(T, sizes[p0])) * float(rng.choice([0.0, 1e-6, 1e-2]))
+    u = rng.random()
+    if u < 0.1:
+        # a common level far above the spread of the samples (predictions that all sit near one value): the score
+        # depends on differences between samples only
+        lvl = float(rng.choice([-500.0, 40.0, 200.0, 500.0]))
+        means = [m / mscale * float(rng.choice([0.01, 1.0])) + lvl for m in means]
+    elif u < 0.2:
+        # the same on a binary grid (every difference between two means is exact in double precision)
+        lvl = float(rng.choice([2.0**10, 2.0**20, -(2.0**20)]))
+        means = [lvl + np.round(m / mscale * 2.0**9) * 2.0**-10 for m in means]
     hetero = [np.exp(rng.uniform(np.log(1e-3), np.log(1e3), size=(T, e))) for e in sizes]
     homo = np.exp(rng.uniform(np.log(1e-3), np.log(1e3), size=(P, T)))
     if big is not None:
